@@ -1096,7 +1096,15 @@ class Emitter:
                 self.unavailable.add(d['id'])
                 return p + '/* const(expr) %s: initialiser is compile-time only; any run-time use fails closed */\n' % name
         if d.get('storageClass') == 'static':
-            raise ExtractError('static local ' + name)
+            # L-static: a function-local static (or thread_local) of scalar / pointer type holds whatever earlier calls left in it.
+            # One call is verified for an ARBITRARY value at entry (uninitialised automatic object = nondeterministic in cbmc);
+            # the initialiser only describes the first call and is dropped.  A proof under this lowering holds for every history;
+            # a failure may be due to an invariant other functions keep, so unit.py reports it as undecided, never as a violation.
+            sct = self.ctype_of(t)
+            if sct[0] not in ('c', 'p') or (sct[0] == 'c' and sct[1].startswith('struct ')):
+                raise ExtractError('static local ' + name + ' of non-scalar type')
+            self.lowerings['L-static(function-local static %s: arbitrary value at entry)' % name] += 1
+            return p + self.cdecl(sct, name) + '; /* L-static: arbitrary at entry */\n'
         ct = self.ctype_of(t)
         if self.is_ref_type(t):
             return p + '%s = &(%s);\n' % (self.cdecl(ct, name), self.E(init))
